@@ -2,7 +2,7 @@ package tricky
 
 import "testing"
 
-const want = "1 7 9 2 [3 4 5] 2 3 [8 2 3 4] [3 4 5];c2 10ett3;b2 11ett3;a32ett3;once3 3;go3 60 7 5 0 8;0 0;0 1;1 0;1 1;2 0;2 1;goto3;chan42;knilint3errxerrother3 2 0 -16 7 8r0r25 [0 1 4]one"
+const want = "1 7 9 2 [3 4 5] 2 3 [8 2 3 4] [103 6 5] n1 2 5;c2 10ett3;b2 11ett3;a32ett3;once3 3;go3 60 7 5 0 8;0 0;0 1;1 0;1 1;2 0;2 1;goto3;chan42;knilint3errxerrother3 2 0 -16 7 8r0r25 [0 1 4]one"
 
 func TestRun(t *testing.T) {
 	if got := Run(); got != want {
